@@ -462,7 +462,39 @@ class Inliner:
         assigned = _assigned_names(body)
         pre = []
         mapping: dict[str, ast.AST] = dict(bind)
+        # the callee's returned locals take the names of the variables the call assigns to, when that cannot capture:
+        # `a, b = self.h(a, c)` with `def h(self, a, c): a = ..; b = ..; return a, b` inlines to the original statements
+        rename_out: dict[str, str] = {}
+        tgt = at.targets[0] if isinstance(at, ast.Assign) and len(at.targets) == 1 else None
+        tnames = [tgt.id] if isinstance(tgt, ast.Name) else \
+            [e.id for e in tgt.elts] if isinstance(tgt, ast.Tuple) and all(isinstance(e, ast.Name) for e in tgt.elts) else None
+        last = body[-1] if body else None
+        if tnames and isinstance(last, ast.Return) and last.value is not None and not _contains(body[:-1], ast.Return):
+            rv = last.value
+            lnames = [rv.id] if isinstance(rv, ast.Name) else \
+                [e.id for e in rv.elts] if isinstance(rv, ast.Tuple) and all(isinstance(e, ast.Name) for e in rv.elts) else None
+            if lnames and len(lnames) == len(tnames) and len(set(lnames)) == len(lnames) and len(set(tnames)) == len(tnames):
+                arg_names = {}
+                for p_, a_ in actual.items():
+                    for n_ in ast.walk(a_):
+                        if isinstance(n_, ast.Name):
+                            arg_names.setdefault(n_.id, []).append((p_, a_))
+                for t_, l_ in zip(tnames, lnames):
+                    if l_ not in assigned and l_ not in actual:
+                        continue  # a global / closure name: leave
+                    uses = arg_names.get(t_, [])
+                    if not uses:
+                        ok_ = True
+                    else:
+                        ok_ = len(uses) == 1 and uses[0][0] == l_ and isinstance(uses[0][1], ast.Name)
+                    if ok_ and l_ in assigned | set(actual) and t_ not in rename_out.values():
+                        rename_out[l_] = t_
         for p, a in actual.items():
+            if p in rename_out:
+                mapping[p] = ast.Name(id=rename_out[p], ctx=ast.Load())
+                if not (isinstance(a, ast.Name) and a.id == rename_out[p]):
+                    pre.append(ast.copy_location(ast.Assign(targets=[ast.Name(id=rename_out[p], ctx=ast.Store())], value=copy.deepcopy(a)), at))
+                continue
             if p not in assigned and isinstance(a, (ast.Name, ast.Constant)):
                 mapping[p] = a
             else:
@@ -471,7 +503,7 @@ class Inliner:
                 pre.append(ast.copy_location(ast.Assign(targets=[ast.Name(id=newp, ctx=ast.Store())], value=copy.deepcopy(a)), at))
         for name in assigned:
             if name not in mapping:
-                mapping[name] = ast.Name(id=f"{name}__i{tag}", ctx=ast.Load())
+                mapping[name] = ast.Name(id=rename_out.get(name, f"{name}__i{tag}"), ctx=ast.Load())
         res = f"result__i{tag}" if want_result else None
         body = _elim_returns(body, res)
         if body is None:
@@ -615,7 +647,9 @@ class Inliner:
                     new.insert(0, ast.copy_location(ast.Assign(targets=[ast.Name(id=res, ctx=ast.Store())], value=ast.Constant(value=None)), st))
             tail = copy.copy(st)
             tail.value = ast.copy_location(val, st) if not hasattr(val, "lineno") else val
-            new.append(tail)
+            trivial = isinstance(tail, ast.Assign) and len(tail.targets) == 1 and ast.dump(tail.targets[0]).replace("Store()", "Load()") == ast.dump(tail.value)
+            if not trivial:
+                new.append(tail)
         new = [ast.fix_missing_locations(ast.copy_location(s, st) if not hasattr(s, "lineno") else s) for s in new]
         # helpers calling helpers
         return self._stmts(new, owner, module, names, depth + 1)
